@@ -1,8 +1,8 @@
 CONSTANTS
   Top = "A"
-  CaOf <- IdCa
+  CaOf <- SecondSlots
   ShadowRebuilt = TRUE
-  Sub = {"B", "C"}
+  Sub = {"B", "C", "C2"}
 SPECIFICATION MCSpec
 INVARIANT TypeOK
 INVARIANT C01_Clean
@@ -12,6 +12,7 @@ PROPERTY MC_IssuedWithinEntitlement
 INVARIANT C02_Converged
 INVARIANT C04_KeysHaveCerts
 INVARIANT C04_PubKeysMatch
+INVARIANT C19_RemovalRemoves
 VIEW CoreView
 CHECK_DEADLOCK FALSE
 CONSTANTS
@@ -19,7 +20,7 @@ CONSTANTS
   TopRes = {"p1", "p2"}
   Roa <- MCRoa1
   AspaDefs <- NoAspa
-  ParentOf <- Chain
-  Ops = {"res", "roa"}
+  ParentOf <- Multi
+  Ops = {"parents", "res", "roa"}
 CONSTANTS
   MaxApi = 6
